@@ -562,14 +562,17 @@ func (x *Exec) oblige(st *State, kind, label, phi string, src string) *Obligatio
 	return o
 }
 
-func (o *Obligation) script(prelude string) string {
+func (o *Obligation) script(prelude string) string { return o.scriptOf(prelude, o.disjuncts) }
+
+// scriptOf: the VC restricted to some of the paths (an obligation holds iff it holds on every path).
+func (o *Obligation) scriptOf(prelude string, disjuncts []string) string {
 	var b strings.Builder
 	b.WriteString(prelude)
 	for _, d := range o.x.decls[:o.decls] {
 		b.WriteString(d)
 		b.WriteByte('\n')
 	}
-	b.WriteString("(assert " + or(o.disjuncts...) + ")\n")
+	b.WriteString("(assert " + or(disjuncts...) + ")\n")
 	for _, a := range o.extraAsserts {
 		b.WriteString("(assert " + a + ")\n")
 	}
@@ -1396,16 +1399,27 @@ func (x *Exec) evalSlice(e *ast.SliceExpr, st *State) (Value, types.Type) {
 		return Term{"(str.substr " + base.S + " " + lo.S + " (- " + hi.S + " " + lo.S + "))", SStr}, xt
 	}
 	sl, ok := xt.Underlying().(*types.Slice)
+	blen := x.slen(base)
 	if !ok {
-		engineFail("unsupported slice expression on %s", xt)
+		// slicing an array (or a pointer to one): a slice over the same elements
+		at, isArr := xt.Underlying().(*types.Array)
+		if pt, isPtr := xt.Underlying().(*types.Pointer); isPtr {
+			at, isArr = pt.Elem().Underlying().(*types.Array)
+		}
+		if !isArr {
+			engineFail("unsupported slice expression on %s", xt)
+		}
+		sl = types.NewSlice(at.Elem())
+		xt = sl
+		blen = intLit(at.Len())
 	}
 	es := x.sortOf(sl.Elem())
-	hi := x.slen(base)
+	hi := blen
 	if e.High != nil {
 		hi = x.evalT(e.High, st)
 	}
 	// bound is cap(s) in Go; len(s) is used (stricter: a proof obligation, not an assumption)
-	x.safety(st, "slice", e, "(and (<= 0 "+lo.S+") (<= "+lo.S+" "+hi.S+") (<= "+hi.S+" "+x.slen(base).S+"))")
+	x.safety(st, "slice", e, "(and (<= 0 "+lo.S+") (<= "+lo.S+" "+hi.S+") (<= "+hi.S+" "+blen.S+"))")
 	n := Term{"(- " + hi.S + " " + lo.S + ")", SInt}
 	if lo.S == "0" {
 		arr := x.sliceArr(st, base, es, sl.Elem())
